@@ -62,6 +62,10 @@ HIGH_ORG = 0xFFD0
 HIGHTAGS = ["inh1", "fcb1", "ext.lbl", "ext.lbl+1", "imm.lbl+1", "pcr.lbl+2", "idx.lbl+1", "extind.lbl+1", "bra.lbl+1", "pcr.lbl"]
 
 
+# a program that defines no symbol at all, made of operands whose written width or sign differs from the field they are rendered into
+NOSYM = [" LDD #-2", " ADDD $10,X", " STD [$40]", " LDA -5", " LDX [5,X]", " CMPX #-128", " LDB #-1", " JMP >-2", " RTS"]
+
+
 def high_programs(tier):
     """programs for the top of memory: label+n may reach $FFFF and wrap past it"""
     for n in (1, 2):
@@ -117,7 +121,7 @@ def cases(tier, seed):
         for d in (1, 0x10, 0x20, 0x80, 0xE0):
             if d0 + d + 8 <= 0x100:
                 yield {"tworeg": d0, "tr": "shift2", "arg": d}
-    for name in ("readme", "xref", "pcr", "strings", "exprs"):
+    for name in ("readme", "xref", "pcr", "strings", "exprs", "nosym"):
         for d in SHIFTS:
             yield {"big": name, "tr": "shift", "arg": d}
             yield {"big": name, "tr": "shift", "arg": d, "olab": True}
@@ -174,7 +178,7 @@ def base_lines(case):
         return ["S0 NOP", "LA LEAX {},PCR".format(r[0]), " RMB {}".format(g0), "LB LEAY {},PCR".format(r[1]), "M1 RMB {}".format(g1),
                 "LC LDD {},PCR".format(r[2]), "M2 NOP", "S4 NOP"], None
     if "big" in case:
-        lines = [ln for ln in c19.BIG[case["big"]]]
+        lines = [ln for ln in (NOSYM if case["big"] == "nosym" else c19.BIG[case["big"]])]
         lines = [ln for ln in lines if fields(ln)[1] not in ("ORG",)]
         labels = []
         return lines, None
